@@ -16,6 +16,7 @@ import collections, hashlib, json, os, random, re, shutil, subprocess, time
 from . import common as c
 
 ORDERS = "id|rev|1,2,0|2,0,1|0,2,1|1,0,2|rev;id;rev;id|id;rev;id;rev"
+ORDERS_QUICK = "id|rev|1,2,0|2,0,1|rev;id;rev;id"
 
 
 def tree_hash():
@@ -124,27 +125,47 @@ def build_recording(tier):
     meta["models"]["Pipeline_asbuilt.cfg"] = {"violates": "C13_Deterministic", "counterexample_len": r2.depth}
     c.log("session machine: %d states, %d transitions; design properties hold (and the unsorted-serial variant violates C13 as expected)" % (r.distinct, r.generated))
 
-    # 2. inputs
+    # 2. inputs (TLC emission runs in parallel) and 3. the real CLI, one pipe-run per input set with the runs that set needs
     cases = os.path.join(d, "cases.txt")
     open(cases, "w").close()
-    plan = [("Pipeline_c04.cfg", None, 400 if thorough else 50), ("Pipeline_c01sim.cfg", 1200 if thorough else 70, None), ("Pipeline_sim.cfg", 2500 if thorough else 90, None)]
-    for cfgname, sim, take in plan:
+    rec = os.path.join(d, "records.ndjson")
+    open(rec, "w").close()
+    work = os.path.join(sc, "work")
+    # (cfg, simulate-walks, sample-size, extra pipe-run flags)
+    V0, A0 = ["--validate=false"], ["--alt=false"]
+    plan = [("Pipeline_c04.cfg", None, 500 if thorough else 40, V0), ("Pipeline_c01sim.cfg", 1200 if thorough else 40, None, V0),
+            ("Pipeline_sim.cfg", 2500 if thorough else 50, None, V0), ("Pipeline_c06sim.cfg", 1500 if thorough else 40, None, V0),
+            ("Pipeline_c10.cfg", None, 500 if thorough else 60, A0)]
+    if thorough:
+        plan.append(("Pipeline_c10sim.cfg", 1500, None, A0))
+    import concurrent.futures
+
+    def emit(item):
+        cfgname, sim, take, flags = item
         out = os.path.join(sc, cfgname + ".cases")
         r = c.tlc("PipelineMC", cfgname, workers=1, out_file=out, simulate=("num=%d" % sim) if sim else None, depth=80 if sim else None, seed_=seed, timeout=3000)
         if r.rc == 124 or r.error or r.violated:
             raise c.Trouble("TLC emission run %s failed:\n%s" % (cfgname, r.out[-2000:]))
-        n = sample_cases(out, take or 10 ** 9, rng, cases)
+        return item, out, r
+
+    with concurrent.futures.ThreadPoolExecutor(max_workers=6) as ex:
+        emitted = list(ex.map(emit, plan))
+    for (cfgname, sim, take, flags), out, r in emitted:
+        part = os.path.join(sc, cfgname + ".part")
+        open(part, "w").close()
+        n = sample_cases(out, take or 10 ** 9, rng, part)
         if sim is None:
             meta["models"][cfgname] = {"states": r.distinct, "transitions": r.generated}
         meta["emission"].append({"cfg": cfgname, "cases": n})
         os.remove(out)
         if n == 0:
             raise c.Trouble("no cases from " + cfgname)
-
-    # 3. run the real CLI
-    rec = os.path.join(d, "records.ndjson")
-    work = os.path.join(sc, "work")
-    pipe_run(v, g, cases, rec, work)
+        prec = part + ".rec"
+        pipe_run(v, g, part, prec, work, flags)
+        with open(cases, "a") as f:
+            f.write(open(part).read())
+        with open(rec, "a") as f:
+            f.write(open(prec).read())
     # C13: repeated and re-scheduled runs on the accepted multi-controller cases
     multi = os.path.join(sc, "multi.cases")
     ids = []
@@ -154,7 +175,7 @@ def build_recording(tier):
         if m and m["exit"] == 0 and len(r_["case"]["ctrls"]) >= 2:
             ids.append(r_["id"])
     rng.shuffle(ids)
-    ids = set(ids[:(200 if thorough else 14)])
+    ids = set(ids[:(200 if thorough else 8)])
     with open(multi, "w") as f:
         for line in open(cases):
             if line.startswith('"CASE '):
@@ -163,7 +184,7 @@ def build_recording(tier):
                     f.write(line)
     rec13 = os.path.join(d, "records13.ndjson")
     if ids:
-        pipe_run(v, g, multi, rec13, work, ["--alt=false", "--repeat", "4" if thorough else "2", "--orders", ORDERS])
+        pipe_run(v, g, multi, rec13, work, ["--alt=false", "--validate=false", "--repeat", "4" if thorough else "2", "--orders", ORDERS if thorough else ORDERS_QUICK])
     else:
         open(rec13, "w").close()
     shutil.rmtree(work, ignore_errors=True)
@@ -219,8 +240,13 @@ def run(tier, prop):
                  for x in meta["trace"]["viol"] if x["prop"] == prop]
     known = c.known_for(prop)
     violations, known_hits, seen = [], [], set()
+    def coarse(f):
+        return f.get("class", "violation") + "|" + re.sub(r"[0-9]+|'[^']*'|\"[^\"]*\"|\([^)]*\)", "#", f["what"])[:70]
+    by_sig = collections.OrderedDict()
+    for f in sorted(findings, key=lambda f: (f.get("class", "violation") != "violation")):
+        by_sig.setdefault(coarse(f), f)
     by_case = collections.OrderedDict()
-    for f in findings:
+    for f in list(by_sig.values())[:8]:
         by_case.setdefault(f["id"], []).append(f)
     extra13 = ["--alt=false", "--repeat", "2", "--orders", ORDERS]
     for cid, fs in list(by_case.items())[:6]:
@@ -232,13 +258,18 @@ def run(tier, prop):
             if not again:
                 raise c.Trouble("candidate for %s on case %s was not reproduced in isolation: %s" % (prop, cid, fs[0]["what"]))
         for f in again:
-            k = [x for x in known if re.search(x["match"], f["what"])] if known else []
+            cls = f.get("class", "violation")
+            if cls.startswith("candidate:"):
+                continue
+            k = []
+            if cls.startswith("known:"):
+                k = [x for x in known if x["signature"] == cls[6:]]
+            else:
+                k = [x for x in known if x.get("match") and re.search(x["match"], f["what"])]
             if k:
                 if k[0]["signature"] not in seen:
                     known_hits.append(k[0]["what"])
                     seen.add(k[0]["signature"])
-                continue
-            if f.get("class", "").startswith("candidate:"):
                 continue
             keep = os.path.join(c.REPLAYS, "%s-%s.cases" % (prop, cid))
             os.makedirs(c.REPLAYS, exist_ok=True)
@@ -268,6 +299,9 @@ RULES = {
     "C04": "one evaluation per run; non-trivial = at least two of the three security levels (method, controller, default) populated",
     "C08": "one evaluation per written spec file; non-trivial = document with at least one $ref and one path parameter",
     "C10": "one evaluation per rejected-on-diagnostics run and per project with a known well-linkedness verdict",
+    "C06": "one evaluation per documented operation and OpenAPI version; non-trivial = operation with an optional parameter, a body or error responses",
+    "C10": "one evaluation per route with a well-linkedness verdict from the specification (every single perturbation of two base routes, sampled double perturbations, plus the well-formed routes of the other input sets) and per run that failed on diagnostics; non-trivial = perturbed route",
+    "C18": "one evaluation per diagnostic produced by GenerateGraph+Validate on the perturbed projects, plus one per error text; non-trivial = all of them (each is a located diagnostic)",
     "C13": "one evaluation per accepted multi-run case (2+ fresh repeats and 8 forced schedules of file / node iteration order); non-trivial = >= 2 controllers",
     "C14": "one evaluation per CLI run; non-trivial = run that reached validation (>= 5 hook events)",
 }
